@@ -8,7 +8,7 @@ import Chewing.Driver.Util
 namespace Chewing.Driver
 open Chewing
 
-def evS (e : Option KeyEvent) (withMods : Bool) : String :=
+def evS (e : Option KeyEv) (withMods : Bool) : String :=
   match e with
   | none => "panic"
   | some e => unwords ([toString e.index, toString e.code, toString e.unicode] ++ (if withMods then [toString e.mods] else []))
@@ -49,7 +49,7 @@ def layExpected (fn : String) (args : List String) : Option String :=
   match fn, args with
   | "key", [l, pre, idx, code, uni] =>
     (layoutByName l).map fun L =>
-      let k : KeyEvent := { index := natOf idx, code := natOf code, unicode := natOf uni, mods := 0 }
+      let k : KeyEv := { index := natOf idx, code := natOf code, unicode := natOf uni, mods := 0 }
       pressS (L.press (natOf pre) k) ++ " " ++ pressS (L.fuzzyPress (natOf pre) k)
   | "pop", [l, pre] => (layoutByName l).map fun _ => toString (removeLast (natOf pre))
   | "clear", [l, _] => (layoutByName l).map fun _ => toString clearSyl
@@ -69,7 +69,7 @@ def pinExpected (fn : String) (args : List String) : Option String :=
   | "key", [v, ks, s, a, idx, code, uni] =>
     (pinVariant v).map fun v =>
       let st : PinyinState := { keySeq := cpsOfHx ks, syl := natOf s, alt := natOf a }
-      let k : KeyEvent := { index := natOf idx, code := natOf code, unicode := natOf uni, mods := 0 }
+      let k : KeyEv := { index := natOf idx, code := natOf code, unicode := natOf uni, mods := 0 }
       match pinyinPress v st k with
       | none => "panic"
       | some (b, st') => behS b ++ " " ++ pinStateS st'
